@@ -127,6 +127,13 @@ def attribute(err, rep, gen_lines):
         tags = ['C15']
         if kind == 'precond' and any(p in txt for p in PARTIAL_OPS):
             tags = ['C15', 'C08']
+        src0 = gen_lines[ln - 1].strip() if ln - 1 < len(gen_lines) else ''
+        if kind == 'arith' and re.search(r'(\+=\s*1\s*;|\+\s*1\s*;)', src0) and '-' not in src0:
+            # a monotone counter incremented by one: an overflow needs 2^64 updates (stated assumption) - undecided, never a C15 verdict
+            kind, tags = 'counter-overflow', []
+        if kind == 'precond' and any('Self::accepts(' in (gen_lines[l2 - 1] if 0 < l2 <= len(gen_lines) else '') for l2 in err['lines'] if l2):
+            # the callee's stated INPUT DOMAIN could not be shown for the value passed: a question about the domain assumption, not a panic
+            kind, tags = 'domain', []
         if err['msg'].startswith('postcondition not satisfied') or err['msg'].startswith('invariant not satisfied'):
             # unlabelled clause: the trait-level contract (inv / abs == step) - derived from the labelled ones
             return dict(module=mod, fn=fn, kind='trait', label='trait-contract', tags=[], line=ln, msg=err['msg'], text=gen_lines[err['primary'] - 1].strip() if err['primary'] else '')
